@@ -1,6 +1,7 @@
 """C03 - Graphics renders transmit exactly the image, in well-formed protocol framing."""
 from .render_kitty import *
 from .render_iterm2 import *
+from .render_data import *     # noqa: F401,F403  what is transmitted is what _get_render_data hands over
 
 TRUSTED = ["zlib / base64 / PNG / JPEG codecs are inverse pairs; len(b64(x)) = 4*ceil(len(x)/3) over an alphabet without ESC; len(img.tobytes()) = w*h*len(mode)",
            "the kitty / iTerm2 protocol meaning of the keys (a, f, t, s, v, z, o, C, c, r, m; size=, width=, height=)"]
